@@ -1,6 +1,7 @@
 import MwVerif.Driver.Common
 import MwVerif.Model.Tree
 import MwVerif.Model.Passes
+import MwVerif.Model.Nesting
 
 /-! `ops <tree>;<op>;<op>;…` — tree in prefix form `id:kind:nchildren` tokens; ops `d<x>` dissolve,
 `r<x>` remove, `p` one call of `_fix_paragraphs`, `P` the pass `fix_paragraphs`, `m<x>,<target>,<0|1>` move_to (1 = before), `a<p>,<x>` detach x and append it to p.
@@ -46,12 +47,35 @@ def applyOp (t : T) (op : String) : T :=
     | _ => t
   else t
 
+/-- the class tables of `fix_nesting`: `k:a` pairs (kind, forbidden ancestor kind), invisible kinds, first exception kind. -/
+def mkCfg (forb invis excb : String) : NCfg :=
+  let pairs := ((forb.splitOn " ").filter (· ≠ "")).filterMap fun s =>
+    match s.splitOn ":" with
+    | [a, b] => match a.toNat?, b.toNat? with
+      | some x, some y => some (x, y)
+      | _, _ => none
+    | _ => none
+  let inv := ((invis.splitOn " ").filter (· ≠ "")).filterMap (·.toNat?)
+  let eb := excb.trimAscii.toString.toNat?.getD 1000000
+  { forb := fun k a => pairs.contains (k, a), invis := fun a => inv.contains a, exc := fun k => decide (eb ≤ k) }
+
 def step (line : String) : String :=
   let (cmd, rest) := splitCmd line
   match cmd, fields rest with
   | "ops", tree :: ops =>
     match parseT ((tree.splitOn " ").filter (· ≠ "")) with
     | some (t, _) => showT (ops.foldl (fun t o => applyOp t o.trimAscii.toString) t)
+    | none => "bad-tree"
+  | "nest", [tree, forb, invis, excb, op] =>
+    -- `N`: one call of `_fix_nesting` ("changed"/"same" + tree); `F`: the pass `fix_nesting`
+    match parseT ((tree.splitOn " ").filter (· ≠ "")) with
+    | some (t, _) =>
+      let c := mkCfg forb invis excb
+      if op.trimAscii.toString = "N" then
+        match t.fixNestingStep c with
+        | some t' => "changed " ++ showT t'
+        | none => "same " ++ showT t
+      else showT (fixNesting c (t.pairs c []) t)
     | none => "bad-tree"
   | _, _ => "bad-op"
 
